@@ -1122,6 +1122,13 @@ func main() {
 		c := c
 		step(func() caseT { return c })
 	}
+	// an endpoint with a data-frame callback only: both roles
+	for k := 0; k < 2; k++ {
+		idx++
+		if run.Mine(idx) {
+			runFramesOnly(k)
+		}
+	}
 	for _, c := range closeFrameCases() {
 		c := c
 		step(func() caseT { return c })
